@@ -1294,8 +1294,20 @@ class LuaASTEchoWriter(BaseLuaWriter):
 
         # Write the last line and any trailing spaces, as lines.
         last = b''.join(linebuf) + self._get_code_for_spaces(None)
-        if (not self._args.get('ignore_tokens') and
-                self._pos < len(self._tokens)):
+        if self._args.get('ignore_tokens'):
+            # (The token position is not tracked in this mode: look for
+            # code after the last token the tree covers.)
+            self._pos = len(self._tokens or ())
+            end_pos = getattr(self._root, 'end_pos', None)
+            if end_pos is None:
+                end_pos = self._pos
+            for i in range(end_pos, len(self._tokens or ())):
+                if not (self._tokens[i].matches(lexer.TokSpace) or
+                        self._tokens[i].matches(lexer.TokNewline) or
+                        self._tokens[i].matches(lexer.TokComment)):
+                    self._pos = i
+                    break
+        if self._pos < len(self._tokens or ()):
             # The parser stopped before the end of the code. Writing only
             # the parsed part would silently drop the rest.
             raise parser.ParserError(
